@@ -215,6 +215,20 @@ func checkC13Bind(c any, r *Rec) error {
 			return fmt.Errorf("the %s form renders %q (error: %v) but the %s form %q (error: %v)\n %s", form, got, gerr != nil, firstForm, firstOut, firstErr, desc)
 		}
 	}
+	// importing under an alias binds the alias and nothing else: the macro's own name still
+	// denotes whatever the importer's world says (here: a context entry)
+	{
+		f := cs.forms()["aliased"]
+		root := append(append([]MNode{}, f.root...), MNode{K: "text", Text: "~"}, MNode{K: "probe", E: &ME{K: "name", N: "mac"}}, MNode{K: "text", Text: "~"})
+		ctx := cs.Ctx
+		ctx.Ks = append(append([]Val{}, cs.Ctx.Ks...), vStr("mac"))
+		ctx.E = append(append([]Val{}, cs.Ctx.E...), vStr("CTX-mac"))
+		want, werr := mmReference(root, f.files, empty, ctx)
+		got, gerr, _, _ := mmEngine(root, f.files, empty, ctx)
+		if werr == nil && (gerr != nil || got != want) {
+			return fmt.Errorf("aliased import, the macro's own name read afterwards: got %q err=%v, want %q\n root=%q files=%v", got, gerr, want, mmSrc(root), c12FilesSrc(f.files))
+		}
+	}
 	if firstErr {
 		r.Class("too-many-arguments-error")
 	}
